@@ -9,13 +9,19 @@
     counter was seeded with. *)
 From Coq Require Import List ZArith Bool.
 From Coq Require Import Strings.Byte.
-From Paloma Require Import Base.Corr Base.Abi Evm.SignFields Evm.SignBytes Evm.MsgIds.
+From Paloma Require Import Base.Corr Base.Abi Base.AbiDec Evm.SignFields Evm.SignBytes Evm.MsgIds Evm.MsgIdsBatch.
 Import ListNotations.
 Open Scope Z_scope.
 
 Inductive case :=
 | CSign (it : item) (inner : list byte) (cp : Z) (outer : list byte)
-| CIds (start nq : Z) (ops : list (op * result)) (final : list (list Z)).
+| CIds (start nq : Z) (ops : list (op * result)) (final : list (list Z))
+(* second round *)
+| CDeliver (it : item) (consensus : abival) (tx : list byte)
+    (* [tx]: transaction input the real VerifyAgainstTX accepted for the message (for a batch: what
+       go-ethereum packs for submit_batch from the compass ABI JSON), [consensus] its first argument *)
+| CIdsB (start bstart nq : Z) (ops : list (bop * bresult)) (final : list (list Z)).
+    (* history over plain and BATCHED queues of one real keeper: BatchQueue.Put / ProcessBatches too *)
 
 Definition zs_eqb : list Z -> list Z -> bool := list_eqb Z.eqb.
 Definition bs_eqb : list byte -> list byte -> bool := list_eqb Byte.eqb.
@@ -40,6 +46,18 @@ Fixpoint queues_ok (s : state) (q : Z) (final : list (list Z)) : bool :=
   | l :: r => zs_eqb (sort (ids (qs s q))) l && queues_ok s (q + 1) r
   end.
 
+Definition vals_eqb (a b : list abival) : bool := abival_eqb (VTuple a) (VTuple b).
+Definition opt_vals_eqb (a : option (list abival)) (b : list abival) : bool :=
+  match a with Some x => vals_eqb x b | None => false end.
+
+Definition bresult_eqb (a b : bresult) : bool :=
+  match a, b with
+  | BR x, BR y => result_eqb x y
+  | BStaged x, BStaged y => x =? y
+  | BProcessed l ok, BProcessed l' ok' => zs_eqb l l' && Bool.eqb ok ok'
+  | _, _ => false
+  end.
+
 Definition check (c : case) : bool :=
   match c with
   | CSign it inner cp outer =>
@@ -48,6 +66,21 @@ Definition check (c : case) : bool :=
        | _ => match inner with [] => true | _ => false end
        end)
       && bs_eqb (outer_preimage cp it) outer
+      (* the model DECODER reads the real pre-image back into the model's slot values *)
+      && (match kind_of it with
+          | KUpload => true
+          | k => opt_vals_eqb (dec_args (signature k) (skipn 4 outer)) (map (slot_val cp it) (signed_slots k))
+          end)
+  | CDeliver it consensus tx =>
+      (match delivered_calldata consensus it with Some b => bs_eqb b tx | None => false end)
+      && (match raw_slot_vals it (delivered_slots (kind_of it)) with
+          | Some vs => opt_vals_eqb (dec_args (consensus_ty :: abi_sig (kind_of it)) (skipn 4 tx)) (consensus :: vs)
+          | None => false
+          end)
+  | CIdsB start bstart nq ops final =>
+      let '(s, rs) := brun_from (mkB (mkState start (fun _ => [])) bstart []) (map fst ops) in
+      list_eqb bresult_eqb rs (map snd ops) && queues_ok (base s) 0 final
+      && (Z.of_nat (length final) =? nq)
   | CIds start nq ops final =>
       let '(s, rs) := run_from (mkState start (fun _ => [])) (map fst ops) in
       list_eqb result_eqb rs (map snd ops) && queues_ok s 0 final
